@@ -60,6 +60,8 @@ package volatility
 //@ ensures[C04] forall kk :: 0 <= kk && kk < len(result1) ==> hor(result1, kk) <= max(hor(highs, kk + (k.IdlePeriod())), max(hor(lows, kk + (k.IdlePeriod())), hor(closings, kk + (k.IdlePeriod()))))
 //@ ensures[C04] forall kk :: 0 <= kk && kk < len(result2) ==> hor(result2, kk) <= max(hor(highs, kk + (k.IdlePeriod())), max(hor(lows, kk + (k.IdlePeriod())), hor(closings, kk + (k.IdlePeriod()))))
 
+// moving standard deviation: sqrt of the mean squared deviation from the window mean (population form)
+//@ stream stdS(c stream, P int)[k] = sqrt(devsq(c, k, k + P, (psum(c, k + P) - psum(c, k)) / P) / P)
 //@ func MovingStd.Compute
 //@ requires m.Period >= 1 && consumed(c) == 0
 //@ ensures[C02] len(result) == max(0, len(c) - (m.IdlePeriod()))
@@ -69,6 +71,15 @@ package volatility
 //@ loop#0 invariant sent(result) == max(0, consumed(c) - (m.Period - 1))
 //@ loop#0 invariant forall k :: 0 <= k && k < sent(result) ==> hor(result, k) <= hor(c, k + m.Period - 1)
 //@ loop#1 invariant 0 <= i && i <= m.Period && rwf(ring) && len(ring.buffer) == m.Period
+//@ ensures[C01] "formula" forall k :: 0 <= k && k < len(result) ==> result[k] == stdS(c, m.Period)[k]
+//@ ensures[C15] "non-negative" forall k :: 0 <= k && k < len(result) ==> result[k] >= 0
+//@ loop#0 invariant forall p :: 0 <= p && p < m.Period && rlpos(ring, p) < rsize(ring) ==> ring.buffer[p] == c[consumed(c) - rsize(ring) + rlpos(ring, p)]
+//@ loop#0 invariant forall p :: 0 <= p && p < m.Period && rlpos(ring, p) >= rsize(ring) ==> ring.buffer[p] == 0
+//@ loop#0 invariant sum == psum(c, consumed(c)) - psum(c, consumed(c) - rsize(ring))
+//@ loop#0 invariant forall k :: 0 <= k && k < sent(result) ==> result[k] == stdS(c, m.Period)[k] && result[k] >= 0
+//@ loop#1 invariant rsize(ring) == m.Period && consumed(c) >= m.Period && sma == (psum(c, consumed(c)) - psum(c, consumed(c) - m.Period)) / m.Period
+//@ loop#1 invariant forall p :: 0 <= p && p < m.Period ==> ring.buffer[p] == c[consumed(c) - m.Period + rlpos(ring, p)]
+//@ loop#1 invariant sum2 == devsq(c, consumed(c) - m.Period, consumed(c) - m.Period + i, sma) && sum2 >= 0
 
 //@ func PercentB.Compute
 //@ requires p.BollingerBands.Period >= 1 && consumed(closings) == 0
